@@ -393,6 +393,9 @@ class ShapeAnalysis:
         if name == "where" and len(e.args) == 3:
             a = self._binop(e, self._eval(e.args[0], env), self._eval(e.args[1], env), ast.Add())
             return self._binop(e, a, self._eval(e.args[2], env), ast.Add())
+        if name == "transpose" and len(e.args) == 1 and (isinstance(f, ast.Name) or dotted(getattr(f, "value", None)) in ("np", "numpy")):
+            v = single(self._eval(e.args[0], env))
+            return one(("arr", tuple(reversed(v[1])))) if v and v[0] == "arr" else UNKNOWN
         if name == "transpose" and isinstance(f, ast.Attribute) and not e.args:
             v = single(self._eval(f.value, env))
             return one(("arr", tuple(reversed(v[1])))) if v and v[0] == "arr" else UNKNOWN
